@@ -1791,6 +1791,11 @@ class Executor:
     def assign(self, st, fid, t, v, s):
         if isinstance(t, ast.Name):
             st.frames[fid][t.id] = v
+            w = self.cfg.get('watch_assign')
+            if w and t.id in w and fid == 1:
+                # contract hook: an obligation on every assignment of a
+                # named variable of the function under contract
+                w[t.id](self, st, fid, v, s)
         elif isinstance(t, (ast.Tuple, ast.List)):
             items = None
             if isinstance(v, tuple):
